@@ -61,6 +61,15 @@ check("C01", "exploration",
       "(extreme aspect ratios) not covered.",
       "exhaustive lattice sweep (mesh x labelling/motion x order pair) against the analytic Calderon identities")
 
+check("C02", "exploration",
+      "Exhaustive lattice mesh x density representation (whole-grid P1/DP0, DP1/DP0, sum over segment-restricted spaces, the same "
+      "with one segment physically reversed and flagged in swapped_normals) x regular order x {1,x,y,z} x every lattice point of "
+      "the doubled bounding box (plus an inner lattice) that the reference places at least one element diameter from the surface; "
+      "inside/outside by solid-angle winding number.",
+      "DESIGN.md 4/C02",
+      "Trusted: the representation formula; reference point-triangle distance and winding number. Thresholds are the property's (1e-6 for order>=12).",
+      "exhaustive lattice sweep (mesh x representation x order x evaluation lattice) against Green's representation formula")
+
 ALL = ["C%02d" % i for i in range(1, 21)]
 
 
